@@ -47,6 +47,18 @@ def field_routes():
     R.append(("register field, literal size: the other element is still usable", reg % ("", "2", "x(a.r[0]); echo(\"ok\");"), "runs:1\nok\n"))
     # sized by a class constant: length N, or rejected - never a register of length 0 that refuses every gate
     R.append(("register field sized by a static final field", reg % ("public static final int N = 2;", "N", ""), ("runs:1\n", "rejected")))
+    # a handle to a qubit of a temporary object, bound to a parameter: allocations made while the handle is alive must not recycle it
+    tmpl = ("class Reg { public qubit[2] qs; public qubit s; public constructor() -> Reg { } }\nfunction make() -> Reg { return new Reg(); }\n"
+            "function probe(qubit a) -> void { %s }\nfunction main() -> void { probe(make().%s); }")
+    for route in ("qs[1]", "qs[0]", "s"):
+        R.append(("temporary's %s: measured, a fresh local declared, then a gate" % route,
+                  tmpl % ("measure a; qubit fresh; h(fresh); h(a); echo(\"gated\");", route), "refused"))
+        R.append(("temporary's %s: measured, a fresh object created, then a gate" % route,
+                  tmpl % ("measure a; Reg other = new Reg(); h(other.s); h(a); echo(\"gated\");", route), "refused"))
+        R.append(("temporary's %s: never measured, a fresh local measured, then a gate" % route,
+                  tmpl % ("qubit fresh; measure fresh; h(a); echo(\"ok\");", route), "runs:ok\n"))
+        R.append(("temporary's %s: measured, reset, then a gate" % route,
+                  tmpl % ("measure a; qubit fresh; reset a; x(a); echo(\"ok\");", route), "runs:ok\n"))
     return R
 
 def run_field_routes(chk):
